@@ -337,6 +337,27 @@ type V0 struct {
 	B string `plenc:"2"`
 }
 
+// Sparse / SparseNew: field indexes far apart (two-byte tags, gaps), and a newer
+// version that adds indexes above the older one's largest.
+type Sparse struct {
+	A int      `plenc:"1"`
+	B string   `plenc:"2"`
+	Z int      `plenc:"100"`
+	Y []int    `plenc:"250"`
+	In *Sparse `plenc:"17"`
+}
+
+type SparseNew struct {
+	A  int        `plenc:"1"`
+	B  string     `plenc:"2"`
+	Z  int        `plenc:"100"`
+	Y  []int      `plenc:"250"`
+	In *SparseNew `plenc:"17"`
+	N1 int        `plenc:"101"`
+	N2 string     `plenc:"300"`
+	N3 []string   `plenc:"1000"`
+}
+
 // ---------------------------------------------------------------------------
 // F9: invalid families - construction must fail
 
@@ -459,6 +480,8 @@ func init() {
 	reg("V0", "F8", V0{})
 	reg("V1", "F8", V1{})
 	reg("V2", "F8", V2{})
+	reg("Sparse", "F8", Sparse{})
+	reg("SparseNew", "F8", SparseNew{})
 
 	reg("BadRec", "F9", BadRec{}, bad)
 	reg("*BadRec", "F9", (*BadRec)(nil), bad, notTop)
